@@ -53,6 +53,7 @@ func methodTableComplete(c *Ctx, rule string, ms []nativeMethod, protos ...strin
 }
 
 func runC16(c *Ctx) {
+	defer c.shared("R4", "C01/R6", "a builtin or method called with missing arguments reports it: the argument helper tests the index against the argument count before it indexes", keyHas("checkArg"), func(s *Ctx) { indexGuards(s, "R6") })
 	p := c.P
 	ms := nativeMethods(p)
 	c.Analysed["native_methods"] = len(ms)
